@@ -28,6 +28,8 @@ def stream(tier, seed):
             i = r.randrange(len(p))
             out.append(p[:i] + p[i + 1:])
             out.append(p[:i] + r.choice(VOCAB) + p[i:])
+    # nesting far beyond the limit, for every kind of group: rejected at depth 64, long before the native stack matters
+    out += [o * 20000 + "a" + ")" * 20000 for o in ("(", "(?:", "(?i:", "(?(a)", "(?=", "(?>", "(?<n>")]
     out += ["(" * 70 + "a" + ")" * 70, "(?:" * 66 + "a" + ")" * 66, "(a)\\k<99999999999>", "(?:ab){18446744073709551615}", "(?#\\", "(c)a{9223372036854775808}b{9223372036854775808}\\1",
             "(?((?:ab){18446744073709551615})c|d)", "a{2,1}", "(a)\\g<1>", "(?<n>a)\\g<n>", "(?<n>a)(?P>n)", "(a)\\g1", "\\x{100000000}", "\\U{FFFFFFFFF}", "(?x)\n  # c1\n  # c2\n  a"]
     return list(dict.fromkeys(out))
